@@ -196,7 +196,11 @@ class Watcher:
         # Feed all updates to the workflow and clean up.
         self.busy_watching.clear()
         async with self.db:
-            old_hashes = self.workflow.get_file_hashes(self.updated | self.deleted)
+            # Only the files a restart would re-hash: an external hash update of a detached,
+            # PLANNED or VOLATILE file is rejected by `Workflow.update_file_hashes()`.
+            old_hashes = self.workflow.get_file_hashes(
+                self.updated | self.deleted, rescannable=True
+            )
 
         # Hashing runs outside any held transaction.
         # Each hash job applies its own result in its own short transaction,
